@@ -15,6 +15,7 @@ import (
 	"regexp"
 	"runtime"
 	"runtime/debug"
+	"runtime/pprof"
 	"sort"
 	"strconv"
 	"strings"
@@ -84,6 +85,11 @@ func worker(a []string) {
 		os.Exit(2)
 	}
 	debug.SetMemoryLimit(6 << 30)
+	if pf := os.Getenv("VERIF_PPROF"); pf != "" && i == 0 {
+		f, _ := os.Create(pf)
+		pprof.StartCPUProfile(f)
+		defer pprof.StopCPUProfile()
+	}
 	c := fw.NewCtx(id, tier, seed(), i, n, ck.Budget[tier])
 	if ck.CaseLimit > 0 {
 		c.StartWatchdog(ck.CaseLimit, out)
@@ -190,7 +196,7 @@ func run(id, tier string) int {
 			defer wg.Done()
 			out := filepath.Join(tmp, fmt.Sprintf("r%d.json", i))
 			cmd := exec.Command(self, "worker", id, tier, strconv.Itoa(i), strconv.Itoa(n), out)
-			cmd.Env = append(os.Environ(), "GOMAXPROCS=2", "VERIF_WORKER=1")
+			cmd.Env = append(os.Environ(), "GOMAXPROCS=2", "VERIF_WORKER=1", "GOGC=400")
 			logf := filepath.Join(tmp, fmt.Sprintf("w%d.log", i))
 			lf, _ := os.Create(logf)
 			cmd.Stdout, cmd.Stderr = lf, lf
